@@ -92,6 +92,8 @@ pub fn observe_axes(w: &World) -> J {
         };
         let de = if x.is_document(h) { guard(|| x.document_element(h).ok().map(|n| opt(w, Some(n))).unwrap_or(0), -777) } else { -1 };
         let top = guard(|| opt(w, Some(x.top_element(h))), -777);
+        let mut pfxmap = x.prefixes(h).iter().map(|(p, n)| (x.prefix_str(*p).to_string(), x.namespace_str(*n).to_string())).collect::<Vec<_>>();
+        pfxmap.sort();
         out.push(json!({
             "live": true,
             "par": opt(w, parent),
@@ -127,6 +129,26 @@ pub fn observe_axes(w: &World) -> J {
             "eps": edge(w, NodeEdge::Start(h).previous(x)),
             "epe": edge(w, NodeEdge::End(h).previous(x)),
             "sv": cps(&x.string_value(h)),
+            // value / type access (beyond the listed properties: reported as notes)
+            "vt": match x.value_type(h) {
+                xot::ValueType::Document => "doc", xot::ValueType::Element => "elem", xot::ValueType::Text => "text",
+                xot::ValueType::Comment => "comm", xot::ValueType::ProcessingInstruction => "pi",
+                xot::ValueType::Attribute => "attr", xot::ValueType::Namespace => "nsn" },
+            "isk": [x.is_document(h), x.is_element(h), x.is_text(h), x.is_comment(h), x.is_processing_instruction(h), x.is_attribute_node(h), x.is_namespace_node(h)],
+            "hdp": x.has_document_parent(h),
+            "ide": x.is_document_element(h),
+            "nn": match x.node_name(h) { Some(n) => { let (l, ns) = x.name_ns_str(n); json!([true, ns, l]) } None => json!([false, "", ""]) },
+            "tcs": match x.text_content_str(h) { Some(t) => json!([true, cps(t)]), None => json!([false, []]) },
+            "wfd": match x.validate_well_formed_document(h) {
+                Ok(()) => "ok",
+                Err(xot::Error::NotDocument(_)) => "notdoc",
+                Err(xot::Error::NoElementAtTopLevel) => "noelem",
+                Err(xot::Error::MultipleElementsAtTopLevel) => "multi",
+                Err(xot::Error::TextAtTopLevel(_)) => "text",
+                Err(xot::Error::IllegalAtTopLevel(_)) => "illegal",
+                Err(_) => "other" },
+            "decls": x.namespace_declarations(h).iter().map(|(p, n)| json!([x.prefix_str(*p), x.namespace_str(*n)])).collect::<Vec<_>>(),
+            "pfxmap": pfxmap,
         }));
     }
     J::Array(out)
